@@ -176,7 +176,7 @@ func runProc(bin string, argv []string, stdin []byte, dir string) procOut {
 type libAnswer struct {
 	Out  string `json:"out"`
 	Err  bool   `json:"err"`
-	Diff bool   `json:"diff"` // the rendered diff is not the empty diff
+	Diff bool   `json:"diff"` // the library reports a difference: the diff has at least one element
 	Eq   bool   `json:"eq"`   // Equals(a, b) under the options
 	Msg  string `json:"msg"`
 }
@@ -222,19 +222,19 @@ func libV2(v *drive.V2, i Inv, mode, in1, in2 string) (ans libAnswer) {
 			} else {
 				ans.Out = d.Render()
 			}
-			ans.Diff = ans.Out != ""
+			ans.Diff = len(d) > 0
 		case "patch":
 			s, err := d.RenderPatch()
 			if err != nil {
 				return fail(err)
 			}
-			ans.Out, ans.Diff = s, s != "[]"
+			ans.Out, ans.Diff = s, len(d) > 0
 		case "merge":
 			s, err := d.RenderMerge()
 			if err != nil {
 				return fail(err)
 			}
-			ans.Out, ans.Diff = s, s != "{}"
+			ans.Out, ans.Diff = s, len(d) > 0
 		}
 	case "patch":
 		var d jd.Diff
@@ -347,19 +347,19 @@ func libV1(v *drive.V1, i Inv, mode, in1, in2 string) (ans libAnswer) {
 			} else {
 				ans.Out = d.Render()
 			}
-			ans.Diff = ans.Out != ""
+			ans.Diff = len(d) > 0
 		case "patch":
 			s, err := d.RenderPatch()
 			if err != nil {
 				return fail(err)
 			}
-			ans.Out, ans.Diff = s, s != "[]"
+			ans.Out, ans.Diff = s, len(d) > 0
 		case "merge":
 			s, err := d.RenderMerge()
 			if err != nil {
 				return fail(err)
 			}
-			ans.Out, ans.Diff = s, s != "{}"
+			ans.Out, ans.Diff = s, len(d) > 0
 		}
 	case "patch":
 		var d jd1.Diff
@@ -706,7 +706,7 @@ func driveProc(p *Plan, shard int, w *Writer, t *codec.Table) {
 			if !ok {
 				doc = codec.InvalidNode
 			}
-			rec["rt"] = Rec{"proc": rp, "doc": doc, "b": pr.B, "opts": inv.opts()}
+			rec["rt"] = Rec{"proc": rp, "doc": doc, "a": pr.A, "b": pr.B, "opts": inv.opts()}
 		}
 		w.Emit(shard, rec)
 		// the stdin twin of a file run (and vice versa)
